@@ -1300,13 +1300,21 @@ impl MdkStorageProvider for MdkSqliteStorage {
 
     fn prune_expired_snapshots(&self, min_timestamp: u64) -> Result<usize, MdkStorageError> {
         let conn = self.connection.lock().unwrap();
-        let deleted = conn
-            .execute(
-                "DELETE FROM group_state_snapshots WHERE created_at < ?",
+        // A snapshot is stored as many rows; report the number of snapshots, not of rows.
+        let snapshots: i64 = conn
+            .query_row(
+                "SELECT COUNT(*) FROM (SELECT DISTINCT snapshot_name, group_id
+                 FROM group_state_snapshots WHERE created_at < ?)",
                 rusqlite::params![min_timestamp as i64],
+                |row| row.get(0),
             )
             .map_err(|e| MdkStorageError::Database(e.to_string()))?;
-        Ok(deleted)
+        conn.execute(
+            "DELETE FROM group_state_snapshots WHERE created_at < ?",
+            rusqlite::params![min_timestamp as i64],
+        )
+        .map_err(|e| MdkStorageError::Database(e.to_string()))?;
+        Ok(snapshots as usize)
     }
 }
 
